@@ -730,6 +730,7 @@ func runC08Loads(ctx *core.Ctx) {
 	runC08Typed(ctx)
 	runC08Meta(ctx)
 	runC08Whole(ctx)
+	runC08OnOff(ctx)
 }
 
 func init() {
